@@ -18,7 +18,12 @@ def safe_compute(e, m):
 def gen_tree(rng, e, cfg, depth=2, maxb=3, maxn=6):
     """('shard', [batches]) | ('merge', tree, [trees], [post batches])"""
     def batches(k):
-        return [e.gen_batch(rng, cfg, max(e.min_batch, rng.choice([1, 1, 2, 3, maxn]))) for _ in range(k)]
+        out = [e.gen_batch(rng, cfg, max(e.min_batch, rng.choice([1, 1, 2, 3, maxn]))) for _ in range(k)]
+        if e.name in NONFINITE_OK and type(e).update is type(e).__mro__[-2].update:
+            for b in out:
+                if isinstance(b, dict) and rng.random() < 0.12:
+                    b["_nonfinite"] = (rng.randrange(64), rng.choice(["nan", "inf", "-inf"]))
+        return out
     if depth == 0 or rng.random() < 0.35:
         return ("shard", batches(rng.choice([0, 1, 1, 2, maxb])))
     return ("merge", gen_tree(rng, e, cfg, depth - 1, maxb, maxn),
@@ -35,18 +40,39 @@ def tree_stream(t):
     return out + list(t[3])
 
 
+NONFINITE_OK = {"Max", "Min", "Mean", "Sum", "Cat", "MeanSquaredError"}      # classes that accept nan / inf data and whose result is well defined then
+
+
+def upd(e, m, cfg, b):
+    """e.update, except that a batch tagged {"_nonfinite": (k, value)} has element k of its first floating tensor
+    argument replaced by nan / inf / -inf (the same poisoned batch goes to the merge tree and to the single instance)"""
+    tag = b.get("_nonfinite") if isinstance(b, dict) else None
+    if tag is None:
+        return e.update(m, cfg, b)
+    import torch
+    a, k = e.args(cfg, {x: y for x, y in b.items() if x != "_nonfinite"})
+    a = list(a)
+    for i, x in enumerate(a):
+        if isinstance(x, torch.Tensor) and x.is_floating_point() and x.numel() > 0:
+            x = x.clone()
+            x.view(-1)[tag[0] % x.numel()] = float(tag[1])
+            a[i] = x
+            break
+    return m.update(*a, **k)
+
+
 def run_tree(e, cfg, t):
     if t[0] == "shard":
         m = e.make(cfg)
         for b in t[1]:
-            e.update(m, cfg, b)
+            upd(e, m, cfg, b)
         return m
     m = run_tree(e, cfg, t[1])
     src = [run_tree(e, cfg, o) for o in t[2]]
     form = t[4] if len(t) > 4 else "list"
     m.merge_state(src if form == "list" else tuple(src) if form == "tuple" else (x for x in src))
     for b in t[3]:
-        e.update(m, cfg, b)
+        upd(e, m, cfg, b)
     return m
 
 
@@ -55,7 +81,7 @@ def tree_vs_single(e, cfg, t):
     a = safe_compute(e, run_tree(e, cfg, t))
     single = e.make(cfg)
     for b in tree_stream(t):
-        e.update(single, cfg, b)
+        upd(e, single, cfg, b)
     b_ = safe_compute(e, single)
     if isinstance(a, T) and a.tag == "err" and isinstance(b_, T) and b_.tag == "err":
         return None
